@@ -102,8 +102,13 @@ class StepSolver(abc.ABC):
     ) -> Optional[float]:
         from pygradflow.step.cond_estimate import ConditionEstimator
 
-        estimator = ConditionEstimator(mat, solver, self.params)
         rcond = None
+
+        # No estimate for empty systems (all variables active, no constraints)
+        if mat.shape[0] == 0:
+            return rcond
+
+        estimator = ConditionEstimator(mat, solver, self.params)
 
         try:
             rcond = estimator.estimate_rcond()
